@@ -8,6 +8,7 @@
 From Coq Require Import ZArith List Bool.
 From WebP Require Import Lib.Res Lib.Arr Spec.Blend Model.AlphaBlend Model.Anim Spec.Anim
   Proofs.Anim_arr Proofs.Anim_composite Proofs.Anim_play.
+From WebP Require Spec.Container Model.ReadImage Proofs.Container_bytes Proofs.C01_top Proofs.ReadImage_base Proofs.ReadImage_container Proofs.ReadImage_vp8l Proofs.ReadImage_lossless Proofs.ReadImage_lossy Proofs.ReadImage_stillspec Proofs.ReadImage_wrap Proofs.ReadImage_safe Proofs.ReadImage_frame Proofs.ReadImage_anim.
 Import ListNotations.
 Open Scope Z_scope.
 
@@ -112,3 +113,48 @@ Proof.
     repeat constructor; cbn; try discriminate; reflexivity.
   - vm_compute. reflexivity.
 Qed.
+
+(* ---------------- animation frames decoded from the file bytes (Model/ReadImage.v read_frame = find_anmf + frame_body + Model.Anim.read_frame_core) ---------------- *)
+Module G.
+  Import Lib.Res Lib.ZBits Spec.Container Spec.YUV Model.ReadImage Proofs.ReadImage_base Proofs.ReadImage_container Proofs.ReadImage_vp8l Proofs.ReadImage_lossless Proofs.ReadImage_lossy Proofs.ReadImage_stillspec Proofs.ReadImage_wrap Proofs.ReadImage_safe Proofs.ReadImage_frame Proofs.ReadImage_anim.
+
+  (* FROM THE FILE BYTES: for every well-formed animated container (chunks of any kind before, between and after the ANMF chunks -- defect F20 repaired) whose frame payloads decode (VP8L: the specification pixels under the two C01 format conditions; VP8 / ALPH+VP8: under the vp8 hypotheses), repeated read_frame delivers for frame k the duration and the rendering of the container-specification canvas fold, and then NoMoreFrames *)
+  Theorem read_frame_from_file_spec :
+    forall (vp8 : list Z -> res (Z * Z * list Z * list Z * list Z)) (c : container) (ms : list Anim.mframe),
+           wf c = true ->
+           anim c = true ->
+           Forall2 (frame_decodes vp8 (fst (dims c)) (snd (dims c))) (frames c) ms ->
+           fst (dims c) * snd (dims c) * 4 < 4294967296 ->
+           exists dec : Container_bytes.M.decoder,
+             Container_bytes.M.new (serialize c) = Ok dec /\
+             Container_bytes.M.num_frames dec = Z.of_nat (length ms) /\
+             (forall buf : list Z,
+              len buf = buffer_size c ->
+              (forall k : nat,
+               (k < length ms)%nat ->
+               nth_error (play vp8 dec (S (length ms)) buf) k =
+               Some
+                 (Ok (Anim.duration (Anim_play.anim_of (anim_file c ms)) k),
+                  Anim.render (alpha c) (fst (dims c)) (snd (dims c))
+                    (Anim.frames_upto AlphaBlend.do_alpha_blending (Anim_play.anim_of (anim_file c ms)) k))) /\
+              (exists b : list Z, nth_error (play vp8 dec (S (length ms)) buf) (length ms) = Some (Err ENoMoreFrames, b))).
+  Proof. exact ReadImage_anim.read_frame_from_file_spec. Qed.
+
+  (* the byte-level play = the frame-list play of Model/Anim.v, so read_frame_spec / play_is_shown / history_independent (C07) apply to frames decoded from the file *)
+  Theorem play_from_file :
+    forall (vp8 : list Z -> res (Z * Z * list Z * list Z * list Z)) (c : container) (ms : list Anim.mframe),
+           wf c = true ->
+           anim c = true ->
+           Forall2 (frame_decodes vp8 (fst (dims c)) (snd (dims c))) (frames c) ms ->
+           fst (dims c) * snd (dims c) * 4 < 4294967296 ->
+           Anim_play.valid_file (anim_file c ms) /\
+           (exists dec : Container_bytes.M.decoder,
+              Container_bytes.M.new (serialize c) = Ok dec /\
+              (forall buf : list Z,
+               len buf = buffer_size c ->
+               play vp8 dec (length ms) buf = Anim.play (anim_file c ms) buf /\
+               play vp8 dec (S (length ms)) buf =
+               Anim.play (anim_file c ms) buf ++ [(Err ENoMoreFrames, last (map snd (Anim.play (anim_file c ms) buf)) buf)])).
+  Proof. exact ReadImage_anim.play_from_file. Qed.
+
+End G.
